@@ -9,12 +9,9 @@ From LBZ Require Import Gen.Consts SchedX.XState Gen.SchedXTab SchedX.XSet Sched
   SchedX.XFrame SchedX.XInvDefs SchedX.XOps SchedX.XInv SchedX.XInv2 SchedX.XInv3 SchedX.XInv4 SchedX.XOracle
   SchedX.XSeq SchedX.XCount SchedX.XC10 SchedX.XC11 SchedX.XOwn SchedX.XOwnProofs SchedX.XScanOwn SchedX.XC11b
   SchedX.XLiveDefs SchedX.XLiveCore SchedX.XLiveIn SchedX.XLiveTok SchedX.XLiveDist SchedX.XLiveMh SchedX.XLiveRes
-  SchedX.XLiveRd SchedX.XScanFront SchedX.XTie.
+  SchedX.XLiveRd SchedX.XScanFront SchedX.XTie SchedX.XLiveRun.
 Import ListNotations.
 Local Open Scope N_scope.
-
-Lemma ev_prog_next st e : ev_prog st e -> ev_next st e.
-Proof. destruct e; simpl; auto. Qed.
 
 (* ---- everything that holds along a run ------------------------------------------------------ *)
 Record livep (st : xstate) : Prop := mklivep {
@@ -51,7 +48,7 @@ Proof.
   intros CS CD EP EF [I S C LI OW LT LD LM LR RD] H.
   pose proof (step_not_failed _ _ _ _ H) as NF.
   specialize (OW NF). specialize (LT NF). specialize (LD NF). specialize (LM NF). specialize (LR NF). specialize (RD NF).
-  pose proof (ev_prog_next _ _ EP) as EN.
+  pose proof (proj1 (ev_prog_next _ _) EP) as EN.
   constructor.
   - eapply inv_step; eauto.
   - eapply sown_step; eauto.
@@ -96,12 +93,41 @@ Proof.
   apply (progress_core cfg st); auto; [rewrite K2; exact Hi|rewrite K3; exact Ho].
 Qed.
 
+(* ... and a worker inside an unlocked computation can always complete its second segment (XLiveRun.v):
+   some event that is not a stutter is enabled in EVERY reachable, non-failed, non-final state *)
+Theorem progress_all_lreach cfg n tin tout ultra st :
+  cfg_safe cfg -> cfg_drops cfg -> 1 <= n -> 1 <= tin -> EMIT_THRESH < tout ->
+  lreach cfg (init_state n tin tout ultra) st -> x_failed st = None -> final st = false ->
+  exists e st', step cfg st e = Some st' /\ productive st e = true.
+Proof.
+  intros CS CD Hn Hi Ho R NF NFIN.
+  destruct (progress_lreach cfg n tin tout ultra st CS CD Hn Hi Ho R NF NFIN) as [RUN|P]; [|exact P].
+  destruct (x_running st) as [|c r] eqn:RQ; [congruence|].
+  apply (running_returns cfg st c NF).
+  - eapply lrun_reach; [exact CS|]. apply preach_reach. apply lreach_preach. exact R.
+  - rewrite RQ. left. reflexivity.
+Qed.
+
 Theorem progress_sreach cfg n tin tout ultra st :
   cfg_safe cfg -> cfg_drops cfg -> 1 <= n -> 1 <= tin -> EMIT_THRESH < tout ->
   sreach cfg (init_state n tin tout ultra) st -> x_failed st = None -> final st = false ->
-  x_running st <> [] \/ exists e st', step cfg st e = Some st' /\ productive st e = true.
+  (x_running st = [] -> exists e st', step cfg st e = Some st' /\ productive st e = true /\
+                         match e with EvParse1 _ _ | EvRetr1 _ _ _ _ | EvRetr2 _ | EvEmit1 _ _ _ _ _ | EvScan1 _ _ _ _ _ => False | _ => True end) /\
+  exists e st', step cfg st e = Some st' /\ productive st e = true.
 Proof.
-  intros CS CD Hn Hi Ho R. apply progress_lreach; auto. apply sreach_lreach; auto.
+  intros CS CD Hn Hi Ho R NF NFIN.
+  assert (L : lreach cfg (init_state n tin tout ultra) st) by (apply sreach_lreach; auto).
+  split; [|exact (progress_all_lreach cfg n tin tout ultra st CS CD Hn Hi Ho L NF NFIN)].
+  intro RUN. destruct (progress_lreach cfg n tin tout ultra st CS CD Hn Hi Ho L NF NFIN) as [X|(e & st' & S & P)]; [congruence|].
+  exists e, st'. split; [exact S|]. split; [exact P|].
+  (* with nobody running no second-segment event is defined *)
+  unfold step in S. rewrite NF in S.
+  destruct e; auto; simpl in S.
+  - unfold parse1, del_run in S. rewrite RUN in S. simpl in S. discriminate.
+  - unfold retr1, del_run in S. rewrite RUN in S. simpl in S. discriminate.
+  - unfold retr2, del_run in S. rewrite RUN in S. simpl in S. discriminate.
+  - unfold emit1, del_run in S. rewrite RUN in S. simpl in S. discriminate.
+  - unfold scan1, del_run in S. rewrite RUN in S. simpl in S. discriminate.
 Qed.
 
 (* ---- the keys of the priority queues ------------------------------------------------------------ *)
@@ -135,7 +161,7 @@ Theorem queue_keys_distinct_sreach cfg n tin tout ultra st :
   cfg_safe cfg -> cfg_drops cfg -> 0 < n -> sreach cfg (init_state n tin tout ultra) st -> x_failed st = None ->
   NoDup (map d_pos (x_scan_q st)) /\ NoDup (map u_base (unord_q st)) /\
   NoDup (map e_base (x_emit_q st)) /\ NoDup (map o_base (x_reord_q st)).
-Proof. intros CS CD Hn R. apply queue_keys_distinct_lreach; auto. apply sreach_lreach; auto. Qed.
+Proof. intros CS CD Hn R NF. exact (queue_keys_distinct_lreach cfg n tin tout ultra st CS CD Hn (sreach_lreach cfg n tin tout ultra st CS CD R) NF). Qed.
 
 (* ---- retr_q: the keys (current positions) of two jobs CAN be equal ------------------------------- *)
 (* the master of the block at bit 40 and a candidate at bit 70 inside it both run to the end of the
@@ -189,4 +215,65 @@ Proof.
     split; [discriminate|reflexivity]. }
   destruct R as (st & RUN & NF & j1 & j2 & A & B & C). exists st, j1, j2. split; [|auto].
   eapply srun_sreach; [constructor|exact RUN].
+Qed.
+
+(* ---- the statements for gen_cfg (Properties_C11x.v) ------------------------------------------------ *)
+Lemma C11x_queue_keys_distinct_gen n tin tout ultra st :
+  0 < n -> sreach gen_cfg (init_state n tin tout ultra) st -> x_failed st = None ->
+  NoDup (map d_pos (x_scan_q st)) /\ NoDup (map u_base (unord_q st)) /\
+  NoDup (map e_base (x_emit_q st)) /\ NoDup (map o_base (x_reord_q st)).
+Proof. apply queue_keys_distinct_sreach; [exact gen_cfg_safe|exact gen_cfg_drops]. Qed.
+
+Lemma C11x_can_retrieve_tie_gen n tin tout ultra st x :
+  reach gen_cfg (init_state n tin tout ultra) st ->
+  In x (x_retr_q st) -> is_minimal rkey pos_lt x (x_retr_q st) = true ->
+  can_attach st (r_cur x) = can_attach st (r_cur (peek_retr pos_lt st)).
+Proof. intro R. apply can_retrieve_tie. exact (inv_reach _ _ _ _ _ _ gen_cfg_safe R). Qed.
+
+Lemma C11x_advance_any_tiebreak_gen n tin tout ultra st (pick : list rjob -> option rjob) hd :
+  reach gen_cfg (init_state n tin tout ultra) st ->
+  (forall q j, pick q = Some j -> In j q /\ forall y, In y q -> pos_lt (rkey y) (rkey j) = false) ->
+  (forall q, q <> [] -> exists j, pick q = Some j) ->
+  snd (adv_retr_g pick (length (x_retr_q st)) hd (x_retr_q st)) = snd (adv_retr (length (x_retr_q st)) hd (x_retr_q st)) /\
+  Permutation.Permutation (fst (adv_retr_g pick (length (x_retr_q st)) hd (x_retr_q st)))
+                          (fst (adv_retr (length (x_retr_q st)) hd (x_retr_q st))).
+Proof.
+  intros R PM PS. apply adv_retr_any_tiebreak; auto.
+  pose proof (i_jobs _ (inv_reach _ _ _ _ _ _ gen_cfg_safe R)) as IJ. unfold all_jobs in IJ.
+  apply Forall_app in IJ. destruct IJ as [IJ _]. eapply Forall_impl; [|exact IJ]. intros j J. apply J.
+Qed.
+
+Lemma C11x_progress_gen n tin tout ultra st :
+  1 <= n -> 1 <= tin -> EMIT_THRESH < tout ->
+  sreach gen_cfg (init_state n tin tout ultra) st -> x_failed st = None -> final st = false ->
+  (x_running st = [] ->
+   exists e st', step gen_cfg st e = Some st' /\ productive st e = true /\
+     match e with EvParse1 _ _ | EvRetr1 _ _ _ _ | EvRetr2 _ | EvEmit1 _ _ _ _ _ | EvScan1 _ _ _ _ _ => False | _ => True end) /\
+  exists e st', step gen_cfg st e = Some st' /\ productive st e = true.
+Proof. apply progress_sreach; [exact gen_cfg_safe|exact gen_cfg_drops]. Qed.
+
+Lemma C11x_progress_dec_gen n small ultra st :
+  1 <= n -> (small = true -> 2 <= n) ->
+  sreach gen_cfg (init_dec n small ultra) st -> x_failed st = None -> final st = false ->
+  exists e st', step gen_cfg st e = Some st' /\ productive st e = true.
+Proof.
+  intros Hn Hs R NF NFIN. unfold init_dec in R.
+  refine (proj2 (C11x_progress_gen n _ _ ultra st Hn _ _ R NF NFIN)).
+  - unfold dec_total_in. destruct small; [discriminate|]. clear - Hn. lia.
+  - unfold dec_total_out, EMIT_THRESH. destruct small; [specialize (Hs eq_refl)|]; lia.
+Qed.
+
+Lemma C11x_live_invariants_gen n tin tout ultra st :
+  0 < n -> sreach gen_cfg (init_state n tin tout ultra) st -> livep st.
+Proof.
+  intros Hn R. apply (livep_lreach gen_cfg n tin tout ultra st gen_cfg_safe gen_cfg_drops Hn).
+  apply sreach_lreach; [exact gen_cfg_safe|exact gen_cfg_drops|exact R].
+Qed.
+
+Lemma C11x_progress_example_gen :
+  exists st, sreach gen_cfg (init_state 3 8 8 false) st /\ x_failed st = None /\ final st = false /\ x_running st = [].
+Proof.
+  assert (E : exists s, srun gen_cfg (init_state 3 8 8 false) tie_events = Some s /\ x_failed s = None /\ final s = false /\ x_running s = [])
+    by (eexists; split; [vm_compute; reflexivity|repeat split; reflexivity]).
+  destruct E as (s & RUN & A & B & C). exists s. split; [|auto]. eapply srun_sreach; [constructor|exact RUN].
 Qed.
